@@ -179,7 +179,10 @@ def attempt(req, fresh):
             spec_ns[name] = g
     outcome, result = 'return', None
     try:
-        result = getattr(obj, req['method'])(**args)
+        if req.get('kind') == 'setter':
+            setattr(obj, req['method'], list(args.values())[0])
+        else:
+            result = getattr(obj, req['method'])(**args)
     except SystemExit:
         outcome = 'raise:SystemExit'
     except Exception as ex:  # noqa
